@@ -202,9 +202,30 @@ pub async fn one_sequence(o: &mut Out, r: &mut Rng, regime: u32, nops: usize, wf
     let mut forced_rec: Option<Rec> = None;
     let mut forced_key: Option<Key> = None;
     let mut forced_user: Option<u64> = None;
+    let mut forced_flag: Option<F> = None;
+    let mut second_rec: Option<Rec> = None;
     if script.is_empty() && r.chance(1, 3) {
-        let pick = r.below(3);
-        if pick == 2 {
+        let pick = r.below(4);
+        if pick == 3 {
+            // an OLDER state of a user rewritten inside a transaction (what tombstoning does) while a newer one is
+            // committed: queries bounded above the newer epoch must still be answered with the newer state
+            let u = r.below(3);
+            let e_old = 1 + r.below(2);
+            let e_new = e_old + 1 + r.below(3);
+            let v_old = version_of(u, e_old, r);
+            forced_rec = Some(Rec::Val(u, e_old, v_old, 1 + r.below(3)));
+            second_rec = Some(Rec::Val(u, e_new, version_of(u, e_new, r), 1 + r.below(3)));
+            forced_user = Some(u);
+            forced_flag = Some(F::LeqEpoch(e_new + r.below(2)));
+            script.push_back((3, Some(false)));     // the older state, committed
+            script.push_back((120, Some(false)));   // the newer state, committed
+            script.push_back((0, None));            // begin
+            script.push_back((121, Some(false)));   // the older state rewritten (pending)
+            script.push_back((112, Some(false)));   // user state, bound at / above the newer epoch
+            script.push_back((116, Some(false)));   // the bulk version query with the same bound
+            script.push_back((112, Some(false)));
+            script.push_back((115, Some(false)));   // user data
+        } else if pick == 2 {
             // a value state staged in a transaction, queried, then rolled back: it must be gone for every read
             let u = r.below(3);
             let e = 1 + r.below(5);
@@ -246,13 +267,16 @@ pub async fn one_sequence(o: &mut Out, r: &mut Rng, regime: u32, nops: usize, wf
         match opc {
             3 if forced_rec.is_some() && scripted.is_some() => { forced_key = forced_rec.as_ref().map(key_of); }
             103 => { forced_rec = forced_rec.map(|x| match x { Rec::Node(l, p) => Rec::Node(l, p + 7), o => o }); opc = 3; }
+            120 => { std::mem::swap(&mut forced_rec, &mut second_rec); opc = 3; }
+            121 => { std::mem::swap(&mut forced_rec, &mut second_rec); forced_rec = forced_rec.map(|x| match x { Rec::Val(u, e, ver, v) => Rec::Val(u, e, ver, (v + 1) % 4), o => o }); opc = 3; }
+            116 => { opc = 16; }
             104 => { forced_rec = Some(Rec::Azks(1 + r.below(5), 1 + r.below(9))); forced_key = Some(Key::Azks); opc = 3; }
             108 | 109 => { opc = 8; }
             112 => { opc = 12; }
             115 => { opc = 15; }
             111 => { opc = 11; }
             119 => { opc = 19; }
-            _ => { if scripted.is_none() { forced_rec = None; forced_key = None; forced_user = None; } }
+            _ => { if scripted.is_none() { forced_rec = None; forced_key = None; forced_user = None; forced_flag = None; second_rec = None; } }
         }
         let scripted_flush = matches!(scripted, Some((119, _)));
         let before = db.op_count();
@@ -361,7 +385,7 @@ pub async fn one_sequence(o: &mut Out, r: &mut Rng, regime: u32, nops: usize, wf
             }
             12 | 13 | 14 => {
                 let u = if scripted.is_some() && forced_user.is_some() { forced_user.unwrap() } else { r.below(3) };
-                let f = if scripted.is_some() && forced_user.is_some() { if r.chance(1, 2) { F::MaxEpoch } else { gen_flag(r) } } else { gen_flag(r) };
+                let f = if scripted.is_some() && forced_flag.is_some() { forced_flag.unwrap() } else if scripted.is_some() && forced_user.is_some() { if r.chance(1, 2) { F::MaxEpoch } else { gen_flag(r) } } else { gen_flag(r) };
                 db.fail_next.store(fail, Ordering::SeqCst);
                 let res = mgr.get_user_state(&user(u), f).await;
                 db.fail_next.store(false, Ordering::SeqCst);
@@ -380,8 +404,15 @@ pub async fn one_sequence(o: &mut Out, r: &mut Rng, regime: u32, nops: usize, wf
             }
             16 | 17 => {
                 let n = 1 + r.below(3) as usize;
-                let us: Vec<u64> = (0..n).map(|_| r.below(3)).collect();
-                let f = gen_flag(r);
+                let mut us: Vec<u64> = (0..n).map(|_| r.below(3)).collect();
+                let mut f = gen_flag(r);
+                if let (Some(_), Some(fu), Some(ff)) = (&scripted, forced_user, forced_flag) {
+                    if !us.contains(&fu) {
+                        us.push(fu);
+                    }
+                    f = ff;
+                }
+                let n = us.len();
                 let labels: Vec<AkdLabel> = us.iter().map(|u| user(*u)).collect();
                 db.fail_next.store(fail, Ordering::SeqCst);
                 let res = mgr.get_user_state_versions(&labels, f).await;
